@@ -20,6 +20,9 @@ acreage_subpattern = re.compile(
     )
     """, re.IGNORECASE | re.VERBOSE)
 
+# NOTE: `\s*(?!\s)` after the lot number takes ALL of the white space, so that
+# none is left for the leading `\s*` of a following `intervener_regex` (an
+# ambiguous split causes exponential backtracking; see rgxlib/misc.py).
 lot_regex = re.compile(
     fr"""
     {comma_wb_lookbehind}
@@ -28,7 +31,7 @@ lot_regex = re.compile(
         (?P<plural>s)?              # Plural 's' (optional).
         \s*
         (?P<lotnum>\d{{1,3}})       # lotnum
-        \s*
+        \s*(?!\s)                  # ALL of the white space after lotnum.
         (?P<acreage>{acreage_subpattern.pattern})?  # Acreage (optional).
     )
     """, re.IGNORECASE | re.VERBOSE
@@ -53,7 +56,7 @@ multilot_regex = re.compile(
         (?P<plural_rightmost>s)?)?   # Plural 's' (optional).
         \s*
         (?P<lotnum_rightmost>\d{{1,3}})     # lotnum (rightmost)
-        \s*
+        \s*(?!\s)                  # ALL of the white space after lotnum.
         
         # Note: This is named 'acreage_notfirst' because it is optional
         # and may not exist on the actually rightmost lot.
